@@ -35,8 +35,9 @@ Print Assumptions C01_delta32_lossless.
 
 (* 3. decode_encode_block: decoding the reference encoding of ANY valid block description (dense
       groups with every subset of the six DenseInfo columns and with or without keys_vals, ways with
-      or without Info / each Info field / tags / refs / node locations, relations with members,
-      changesets, any granularity / offsets / date granularity / string table, mixed groups) yields
+      or without Info / each Info field / tags / refs / node locations, relations with members
+      (any int32 in the member type column: a value outside the enum 0..2 means a member without
+      a known type, never the type of an earlier member), changesets, any granularity / offsets / date granularity / string table, mixed groups) yields
       exactly the elements the description means, in order, field for field, from EVERY incoming
       decoder state. *)
 Theorem C01_decode_encode_block : forall b,
